@@ -79,11 +79,18 @@ class Script:
             # answered, but slower than the keep-alive interval (virtual time)
             await asyncio.sleep(45)
             return
-        if o == "f":
+        if o in ("f", "F"):
+            if o == "F":
+                # a failure that takes longer than the keep-alive interval to show (the
+                # sender's own time-out on a silent device): still one failed keep-alive
+                await asyncio.sleep(45)
             # failures come in the exception classes real senders raise (a timeout is an
-            # OSError on Python >= 3.11); the loop must treat them all alike
-            kinds = [RuntimeError, asyncio.TimeoutError, OSError, ConnectionResetError, ValueError]
-            raise kinds[self.i % len(kinds)]("keep-alive failed")
+            # OSError on Python >= 3.11), with and without arguments (async_timeout raises a
+            # bare TimeoutError()); the loop and its wirings must treat them all alike
+            kinds = [lambda: RuntimeError("keep-alive failed"), lambda: asyncio.TimeoutError(), lambda: OSError(),
+                     lambda: ConnectionResetError("reset by peer"), lambda: ValueError(), lambda: TimeoutError("timed out"),
+                     lambda: OSError(110, "Connection timed out")]
+            raise kinds[self.i % len(kinds)]()
         asyncio.current_task().cancel()
         await asyncio.sleep(0)
 
@@ -476,6 +483,16 @@ def run(ctx, only=None):
         if "o" in s:
             cases.append(("ap2", default_r, s.replace("o", "O")))
             cases.append(("mrp", default_r, s.replace("o", "O", 1)))
+    # failures that take longer than the interval to show ('F')
+    for r in (0, 1, 2, 3):
+        for s in scripts(slow_len):
+            if "f" in s:
+                cases.append(("plain", r, s.replace("f", "F")))
+                cases.append(("plain", r, s.replace("f", "F", 1)))
+    for s in scripts(5):
+        if "f" in s:
+            cases.append(("ap2", default_r, s.replace("f", "F")))
+            cases.append(("mrp", default_r, s.replace("f", "F")))
     # the consumer of the report and the process environment: a handler that raises, the
     # facade-like device listener (relays one call, then closes), debug logging switched on
     env_len = ctx.scale(5, 6)
@@ -543,7 +560,7 @@ def run(ctx, only=None):
             ctx.fail("mrp-real:failure-reported-twice", {"variant": "mrp-real", "retries": default_r, "script": sc},
                      f"connection.close() called {n_closes} times", "at most once", "dead connection reported more than once")
 
-    answers = ctx.lean([f"run {r} {s.replace('O', 'o') or '-'}" for (_v, r, s, _e, _i, _w) in results])
+    answers = ctx.lean([f"run {r} {s.replace('O', 'o').replace('F', 'f') or '-'}" for (_v, r, s, _e, _i, _w) in results])
     for (variant, r, s, events, consumed, whole), ans in zip(results, answers):
         base = variant.split(":")[0]
         ctx.note("variant:" + variant)
@@ -561,7 +578,7 @@ def run(ctx, only=None):
         if model_events != events or int(model_iter) != consumed:
             ctx.disagree(dict(case, loop=variant, own_script=s), impl, ans, where="heartbeater events")
         ctx.validated()
-        for what in oracle(r, s.replace("O", "o"), events, "mrp" if variant in ("mrp", "mrpdebug") else "plain"):
+        for what in oracle(r, s.replace("O", "o").replace("F", "f"), events, "mrp" if variant in ("mrp", "mrpdebug") else "plain"):
             ctx.fail(f"{base}:{what.split(' ')[0]}", dict(case, loop=variant, own_script=s),
                      events, "see property C19", what)
 
